@@ -19,6 +19,17 @@ Theorem C02_complete : forall ctx hook a v tv, supported ctx a = true -> conform
 Proof. intros ctx hook a v tv. exact (complete cfg good ctx hook a v tv). Qed.
 Print Assumptions C02_complete.
 
+(* A plain class never "misses type arguments", so an instance is never turned away before isinstance is asked.  The arity tables
+   are keyed by the NAMES of the typing generics and the model has no class names.  For the source shape that looks
+   cls.__name__ up (plain_class_complete cfg = false) the statement rests on the assumption recorded at Model/Checker.v
+   has_required - no class in play is called like a key of the tables - which is FALSE for a user class named List, Dict,
+   Tuple, Union ... (finding K-C02-class-name; the harness keeps those names out of the class-deco stream for that shape).  For
+   the shape that answers for plain classes first (flag true) it is a fact about every class whatever it is called, and the
+   harness then names user classes like every export of typing / collections / collections.abc, these included. *)
+Theorem C02_plain_class_never_incomplete : forall c, has_required cfg (ACls c) = true.
+Proof. intro c. unfold has_required, has_required_tables. cbn [ann_name]. apply orb_true_r. Qed.
+Print Assumptions C02_plain_class_never_incomplete.
+
 (* equivalent spellings (typing alias / builtin alias, Union / Optional / X | Y, any member order,
    at any depth) give the same outcome for every value *)
 Theorem C02_spelling_independent : forall ctx hook a a', spell_equiv a a' ->
